@@ -348,6 +348,10 @@ def run(ctx, R, tier):
     accumulators(F, R)
     duration_interp(F, R)
     interp_shapes(F, R)
+    progress_reset(F, R)
+    # clock speeds of different units are blended in the target's unit (the C19 rule)
+    from .c19 import speed_units
+    speed_units(F, R, rule='B.C06.speed-units')
     # 'with the built-in easings the value never leaves the interval': their powers stay inside their domain (A.singular)
     from ..enginea import run_singular_only
     run_singular_only(R, F, lambda fn: fn.startswith('tween::'), floor=2)
@@ -622,6 +626,53 @@ def set_rule(F, R):
     sg = [(bb, s) for bb, si, s in b.stmts() if s['k'] == 'assign' and pretty_place(b, s['lhs']) == '(*self).stagnant']
     R.check(len(sg) == 1 and describe_rv(b, sg[0][1]['rv']) == 'False', 'B.C06.set', 'stagnant', 'Parameter::set does not clear stagnant',
             detail='stagnant = false')
+
+
+def progress_reset(F, R, rule='B.C06.set'):
+    """A new tween starts from scratch: what the tween-advancing function carries from one update to the next (a field of
+    `self` it both reads and writes - elapsed time, a 'has started' latch) either lives inside the Tweening state, which
+    `set` replaces, or is written by `set` on every path.  Progress kept beside the state survives a second `set` issued
+    while the first transition is still running: the new tween inherits the old one's elapsed time or skips its own
+    start time."""
+    from ..rules import must_pass
+    n = 0
+    for adv, setter, key in ((P + '::update_tween', P + '::set', 'Parameter'),
+                             ('<modulator::tweener::Tweener as modulator::Modulator>::update', 'modulator::tweener::Tweener::set', 'Tweener')):
+        b, sb = F.body(adv), F.body(setter)
+        if b is None and key == 'Parameter':
+            b = F.body(P + '::update')      # the helper folded back into its caller
+        if not R.check(b is not None and sb is not None, rule, 'anchor:progress:' + key, '%s / %s not found' % (adv, setter)):
+            continue
+        n += 1
+
+        def top_field(pl):
+            pr = pl['p']
+            if pl['l'] == 1 and len(pr) >= 2 and pr[0][0] == 'deref' and pr[1][0] == 'field':
+                return pr[1][2]
+            return None
+        reads, writes = set(), set()
+        for bb, pl, kind in b.all_places():
+            f = top_field(pl)
+            if f is None or f == 'state':
+                continue
+            # a write is a store to the field itself (or a part of it); lending it out mutably counts as both
+            (writes if kind == 'def' else reads).add(f)
+        for bb, si, s in b.stmts():
+            if s['k'] == 'assign' and s['rv']['k'] in ('ref', 'rawptr') and s['rv'].get('bk') != 'shared':
+                f = top_field(s['rv']['pl'])
+                if f and f != 'state':
+                    writes.add(f)
+        carried = sorted((reads & writes) - ({'raw_value', 'previous_raw_value'} if b.path.endswith('::update') and key == 'Parameter' else set()))
+        bad = []
+        for f in carried:
+            ws = [bb for bb, si, s in sb.stmts() if s['k'] == 'assign' and top_field(s['lhs']) == f]
+            if not ws or not must_pass(sb, [0], sb.return_blocks(), ws):
+                bad.append(f)
+        R.check(not bad, rule, key + ':progress-reset',
+                '%s carries %s from one update to the next outside the Tweening state and %s does not reset it: a second set issued while a '
+                'transition is running starts a tween that inherits the progress of the one it replaces' % (b.path, bad, setter),
+                detail={'carried': carried}, where=b.file)
+    R.floor(rule + '.progress', n, 2)
 
 
 def set_unconditional(F, R, rule='B.C06.set'):
